@@ -170,6 +170,15 @@ func check(c mcase, fail func(key, msg string)) {
 		}
 		compare("Value.Get", got)
 		unchanged("Value.Get")
+		// an option given twice: the later one counts, as with every option - also when the later one is "no mask"
+		// (a wrapper that sets its own default projection and then hands on the request's mask, nil included)
+		for _, earlier := range []resource.ReadOption{resource.WithReadPaths(&lib.T{}, "default_int32"), resource.WithReadMask(&fieldmaskpb.FieldMask{}), resource.WithReadMask(nil)} {
+			if p := guarded(func() { got = v.Get(earlier, resource.WithReadMask(mask)) }); p != nil {
+				report("panic", fmt.Sprintf("Value.Get panicked: %v", p))
+				return
+			}
+			compare("Value.Get(another read mask option, then this read mask)", got)
+		}
 		if !same(v.Get(), orig) {
 			report("mutated-store", "Value.Get with a read mask changed the stored value")
 		}
@@ -182,6 +191,16 @@ func check(c mcase, fail func(key, msg string)) {
 			return
 		}
 		compare("Collection.Get", got)
+		for _, earlier := range []resource.ReadOption{resource.WithReadPaths(&lib.T{}, "default_int32"), resource.WithReadMask(&fieldmaskpb.FieldMask{})} {
+			if p := guarded(func() { got, _ = col.Get("a", earlier, resource.WithReadMask(mask)) }); p != nil {
+				report("panic", fmt.Sprintf("Collection.Get panicked: %v", p))
+				return
+			}
+			compare("Collection.Get(another read mask option, then this read mask)", got)
+			if p := guarded(func() { list = col.List(earlier, resource.WithReadMask(mask)) }); p == nil && len(list) == 2 {
+				compare("Collection.List(another read mask option, then this read mask)[0]", list[0])
+			}
+		}
 		if p := guarded(func() { list = col.List(resource.WithReadMask(mask)) }); p != nil {
 			report("panic", fmt.Sprintf("Collection.List panicked: %v", p))
 			return
@@ -228,6 +247,13 @@ func check(c mcase, fail func(key, msg string)) {
 		seed := <-ch
 		compare("Value.Pull seed", seed.Value)
 		unchanged("Value.Pull seed")
+		{
+			ctx0, cancel0 := context.WithCancel(context.Background())
+			ch0 := v.Pull(ctx0, resource.WithReadPaths(&lib.T{}, "default_int32"), resource.WithReadMask(mask), resource.WithBackpressure(true))
+			seed0 := <-ch0
+			cancel0()
+			compare("Value.Pull(another read mask option, then this read mask) seed", seed0.Value)
+		}
 		// a second subscriber without a mask, registered later: what the first one is shown is its own business
 		chAll := v.Pull(ctx, resource.WithBackpressure(true))
 		if seedAll := <-chAll; !same(seedAll.Value, orig) {
